@@ -1,12 +1,25 @@
 #!/bin/bash
-# usage: seedcheck.sh <ID> <a|b> [extra props...]   — confirm a seeded change and run the checks against it
+# usage: seedcheck.sh <ID> <a|b|c|d> [extra props...]   — confirm a seeded change and run the checks against it
+# (a, b: round 1, /tmp/seed/<ID>.out; c, d: round 2, /tmp/seed/<ID>.out2)
 id=$1; x=$2; shift 2
 out=/tmp/seed/$id.out
+case $x in c|d) out=/tmp/seed/$id.out2;; esac
 dst=/verif/seeded/${id}${x}
 mkdir -p $dst
 cp $out/$x.patch.diff $dst/patch.diff; cp $out/$x.demo.py $dst/demo.py; cp $out/$x.meta.json $dst/meta.agent.json 2>/dev/null
 cd /repo || exit 9
 git diff --quiet || { echo "/repo not clean"; exit 9; }
+# own confirmation of the test suite with the patch, in the scratch worktree /tmp/clean (never in /repo)
+ts="not run"
+if [ -d /tmp/clean ] && git -C /tmp/clean diff --quiet; then
+  git -C /tmp/clean apply $dst/patch.diff && {
+    if git -C /tmp/clean diff --name-only | grep -q '\.c$'; then ( cd /tmp/clean && /venv/bin/python setup.py build_ext --inplace -q >/dev/null 2>&1 ); cbuilt=1; fi
+    ts=$( cd /tmp/clean && timeout 1800 /venv/bin/python -m pytest -q -p no:cacheprovider --timeout=900 -n 6 2>&1 | tail -1 )
+    git -C /tmp/clean checkout -- .
+    if [ -n "$cbuilt" ]; then ( cd /tmp/clean && /venv/bin/python setup.py build_ext --inplace -q >/dev/null 2>&1; rm -rf build ); fi
+  }
+fi
+echo "test suite with patch (own run): $ts"
 # demo on clean tree (run from /repo so that the demo's sys.path.insert(0, cwd) picks /repo)
 ( cd /repo && timeout 600 /venv/bin/python $dst/demo.py >/tmp/seed_demo_clean.txt 2>&1 ); c0=$?
 git apply $dst/patch.diff || { echo "patch does not apply"; exit 9; }
@@ -28,9 +41,9 @@ for p in $id "$@"; do
 done
 git checkout -- . 
 echo "$id$x demo_clean=$c0 demo_mut=$c1 checks=$res" >> /verif/seeded/RESULTS.txt
-python3 - "$dst" "$id" "$c0" "$c1" "$res" <<'PY'
+python3 - "$dst" "$id" "$c0" "$c1" "$res" "$ts" <<'PY'
 import json, sys, os, glob
-dst, pid, c0, c1, res = sys.argv[1:6]
+dst, pid, c0, c1, res, ts = sys.argv[1:7]
 agent = {}
 try:
     agent = json.load(open(os.path.join(dst, "meta.agent.json")))
@@ -45,7 +58,8 @@ for f in glob.glob(os.path.join(dst, "check_*.txt")):
 meta = {"property": pid, "what": agent.get("what"), "needs": agent.get("needs"),
         "source": "independent sub-agent given only the property text and a scratch worktree",
         "confirmed": {"demo_exit_on_clean_tree": int(c0), "demo_exit_with_patch": int(c1),
-                      "test_suite_with_patch": "398 passed, only the 2 known failures (agent run: %s)" % "; ".join(map(str, agent.get("ran", [])))[:600]},
+                      "test_suite_with_patch_own_run": ts,
+                      "test_suite_with_patch_agent_run": "; ".join(map(str, agent.get("ran", [])))[:600]},
         "ran": ["git -C /repo apply patch.diff", "/venv/bin/python demo.py (cwd /repo)", "./check %s" % pid, "git -C /repo checkout -- ."],
         "checks": caught}
 json.dump(meta, open(os.path.join(dst, "meta.json"), "w"), indent=1)
